@@ -367,3 +367,132 @@ def run_depends(p: Project, clause: str, floor: int) -> RuleResult:
 def callee_name_(call):
     f = call.func
     return f.id if isinstance(f, ast.Name) else f.attr if isinstance(f, ast.Attribute) else None
+
+
+# --------------------------------------------------------------------------- HIDDEN-DEP
+def _normal_reach(cfg, starts, avoid=(), from_edges=None):
+    """reachability over non-exception edges"""
+    avoid = set(avoid)
+    seen, work = set(), []
+    if from_edges is not None:
+        for n, want in from_edges:
+            for t, lab in n.succ:
+                if lab == want and t not in avoid and t not in seen:
+                    seen.add(t)
+                    work.append(t)
+    else:
+        work = list(starts)
+    while work:
+        n = work.pop()
+        for t, lab in n.succ:
+            if lab == "e" or t in avoid or t in seen:
+                continue
+            seen.add(t)
+            work.append(t)
+    return seen
+
+
+def run_hidden_dep(p: Project, clause: str, floor: int) -> RuleResult:
+    """A container's render() that can complete normally *without* rendering one of its children (a Pile item
+    with 0 rows, a Columns column with no width, a Frame header trimmed away) has still consulted that child for
+    the layout (rows()/pack()), but the child's canvas is not among the children of the result: CanvasCache.store
+    derives the dependencies from the child canvases, so the hidden child is not one of them and changing it
+    (an empty Text that gets text, an empty inner Pile that gets an item) leaves the cached parent canvas in place.
+    Such a render() must declare the dependency itself: a set_depends() call, reachable from the skipping path,
+    whose argument names the source of the skipped child (the contents list / the attribute)."""
+    from .defuse import DefUse
+
+    rr = RuleResult("HIDDEN-DEP", clause, "a render() that can finish without rendering one of its children declares the dependency on the hidden child with set_depends()", floor)
+    for fi in p.functions.values():
+        if fi.name != "render" or fi.cls is None or fi.is_lambda or not p.is_subclass(fi.cls, "Widget"):
+            continue
+        sn = fi.self_name
+        du = DefUse(fi)
+        cfg = du.cfg
+        groups: dict[str, list] = {}
+        for n in cfg.nodes:
+            if n.ast is None or n.kind in ("with", "handler"):
+                continue
+            root = n.ast.iter if n.kind == "for" else n.ast
+            for x in walk_no_nested(root):
+                if not (isinstance(x, ast.Call) and isinstance(x.func, ast.Attribute) and x.func.attr == "render"):
+                    continue
+                v = x.func.value
+                if isinstance(v, ast.Name) and v.id == sn:
+                    continue
+                if isinstance(v, ast.Call) and isinstance(v.func, ast.Name) and v.func.id == "super":
+                    continue
+                # a temporary decoration around a child: Filler(self.header, ...).render(...)
+                if isinstance(v, ast.Call) and v.args:
+                    v = v.args[0]
+                txt = ast.unparse(du.expand(v, n))
+                src = None
+                for a in ast.walk(ast.parse(txt, mode="eval")):
+                    if isinstance(a, ast.Attribute) and isinstance(a.value, ast.Name) and a.value.id == sn and "canv" not in a.attr.lower():
+                        src = a.attr
+                        break
+                if src is None and isinstance(v, ast.Name):
+                    # loop variable of a loop over (a zip of) the contents
+                    for h in cfg.nodes:
+                        if h.kind == "for" and any(isinstance(t, ast.Name) and t.id == v.id for t in ast.walk(h.ast.target)) and any(s is x for b in h.ast.body for s in ast.walk(b)):
+                            for a in ast.walk(h.ast.iter):
+                                if isinstance(a, ast.Attribute) and isinstance(a.value, ast.Name) and a.value.id == sn:
+                                    src = a.attr
+                if src is None:
+                    continue
+                groups.setdefault(src, []).append((n, x))
+        # only children the layout asks something (rows(size)/pack(size) somewhere in render's self-call closure;
+        # canvas.rows()/cols() take no argument):
+        # a scratch widget the class fills itself, a font, ... is not a hidden input
+        closure, work = {}, [fi]
+        while work:
+            g = work.pop()
+            if id(g) in closure:
+                continue
+            closure[id(g)] = g
+            for c in g.own_nodes():
+                if isinstance(c, ast.Call) and isinstance(c.func, ast.Attribute) and isinstance(c.func.value, ast.Name) and c.func.value.id == g.self_name:
+                    for t in p.resolve_call(c, g) or []:
+                        if hasattr(t, "own_nodes"):
+                            work.append(t)
+        def consulted(src):
+            for g in closure.values():
+                reads = any(isinstance(a, ast.Attribute) and isinstance(a.value, ast.Name) and a.value.id == g.self_name and a.attr in (src, "_" + src, src.lstrip("_")) for a in g.own_nodes())
+                asks = any(isinstance(c, ast.Call) and isinstance(c.func, ast.Attribute) and c.func.attr in ("rows", "pack") and (c.args or c.keywords) and not (isinstance(c.func.value, ast.Name) and c.func.value.id == g.self_name) for c in g.own_nodes())
+                if reads and asks:
+                    return True
+            return False
+
+        groups = {k: v for k, v in groups.items() if p.find_member(fi.cls, k) is None or p.find_member(fi.cls, k)[0] != "method"}
+        groups = {k: v for k, v in groups.items() if consulted(k)}
+        if not groups:
+            continue
+        deps = []
+        for n in cfg.nodes:
+            if n.ast is None or n.kind in ("for", "with", "handler"):
+                continue
+            for x in walk_no_nested(n.ast):
+                if isinstance(x, ast.Call) and isinstance(x.func, ast.Attribute) and x.func.attr == "set_depends" and x.args:
+                    deps.append((n, x))
+        for src, calls in sorted(groups.items()):
+            nodes = [n for n, _ in calls]
+            call0 = calls[0][1]
+            # the loop (if any) all calls of the group sit in
+            loops = [h for h in cfg.nodes if h.kind == "for" and all(any(s is x for b in h.ast.body for s in ast.walk(b)) for _, x in calls)]
+            if loops:
+                h = loops[-1]
+                r = _normal_reach(cfg, [], avoid=nodes, from_edges=[(h, "T")])
+                skippable = h in r
+                skip_reach = _normal_reach(cfg, [h]) if skippable else set()
+            else:
+                r = _normal_reach(cfg, [cfg.entry], avoid=nodes)
+                skippable = cfg.exit in r
+                skip_reach = r
+            ident = f"{short(fi)}:{src}"
+            rr.inst(ident, True, {"render": short(fi), "child": f"{sn}.{src}", "can_be_skipped": skippable, "set_depends": [norm(x, 70) for _, x in deps]} if len(rr.samples) < 12 else None)
+            if not skippable:
+                continue
+            good = [x for n, x in deps if n in skip_reach and any(isinstance(a, ast.Attribute) and isinstance(a.value, ast.Name) and a.value.id == sn and a.attr == src for a in ast.walk(ast.parse(ast.unparse(du.expand(x.args[0], n)), mode="eval")))]
+            if not good:
+                rr.add(finding("HIDDEN-DEP", fi, call0, f"render() can finish without `{norm(call0, 50)}` (the child from {sn}.{src} is given no room and skipped) and no set_depends() naming {sn}.{src} follows: the hidden child was consulted for the layout but is not a dependency of the cached canvas, so when it changes (gains rows / columns) this widget and its ancestors keep serving the canvas without it", construct=f"child from {src} can be skipped without set_depends"))
+    return rr
